@@ -150,9 +150,11 @@ def show_str_dict(d):
 
 
 def run_traces(case, parser_hook=None):
-    """The real pipeline on the case; returns (list of per-trace dicts, error name or '-', parser)."""
+    """The real pipeline on the case; returns (list of per-trace dicts, error name or '-', parser).
+    case['prepop'] (optional): thread table the parser is CONSTRUCTED with, as in the second request on a reused
+    PyKdebugParser."""
     codes = {int(k): v for k, v in case['codes'].items()}
-    tp, pn = {}, {}
+    tp, pn = {int(k): v for k, v in (case.get('prepop') or {}).items()}, {}
     parser = TracesParser(codes, tp, pn)
     if parser_hook:
         parser_hook(parser)
@@ -443,6 +445,8 @@ def matching_search(rep, rng, tier, prop, decoders=None):
                 s.ev('MACH_SCHED', NONE, tid, w)
                 log.append(('N', 'MACH_SCHED', tid, w))
         case = make_case_from(s.recs)
+        if rng.random() < 0.5:                         # the parser is built with the threads already in its table
+            case['prepop'] = {str(t): 40 + j for j, t in enumerate(tids)}
         outs, err, parser = run_traces(case)
         sec['cases'] += 1
         # expected: declarative matching
